@@ -1,7 +1,33 @@
 """C08 - temporal aggregation and disaggregation reduce by group and conserve totals.
 
 dutils.aggregate / dutils.flathomogen (c_dutils.c), dutils.monthly2daily (flat,
-cubic; calendar of c_dateutils.c), signatures.goue."""
+cubic; calendar of c_dateutils.c), signatures.goue.
+
+The property quantifies over index vectors, input series and monthly series - not
+over how the caller stores them nor over what was done before with the objects that
+carry them.  Besides the "build a fresh int64 / float64 array, call once" cases the
+check therefore runs recorded sequences of calls on caller-side objects and judges
+EVERY answer on the way with the same exact oracle and the same model:
+  * ArrLife: 2..5 calls of aggregate / flathomogen / goue; the index is held as a
+    list, tuple, int64 / int32 / smallest-fitting integer ndarray (plain, strided,
+    negative stride, read-only, other byte order, column of a 2-D array), pandas
+    Series (text / shuffled / duplicated / date labels) or pandas Index; the inputs
+    as a float64 ndarray (plain, strided, negative stride, read-only, other byte
+    order, column of a Fortran / C 2-D array, inner slice); operator and maxnan as
+    Python int, numpy int32 / int64 or 0-d array.  Between calls the caller keeps
+    its objects untouched (the same objects are passed again), rewrites them in
+    place, or builds new ones; vectors returned by earlier calls are still held and
+    must still be what they were (also after the caller overwrites its own arrays);
+    an index that decreases is mixed in (the error must not outlive the call).
+  * SeriesLife: 2..4 calls of monthly2daily; the monthly Series has a DatetimeIndex
+    of unit s / ms / us / ns, with or without freq, naive / UTC / a zone with
+    daylight saving, named or not, float64 or int64 values, held plainly, as a
+    DataFrame column, as a slice of a longer series, on a read-only or a strided
+    buffer.  Successive calls differ in one respect (other interpolation, other year
+    with the same month and length - leap / common / century -, next month, other
+    values) and use the same Series object again, rewritten in place or rebuilt.
+Replays of these cases carry the whole sequence ("steps") and are re-executed by
+--replay.  Their keys are the clause keys with "/caller-objects" appended."""
 import calendar
 import datetime
 import itertools
